@@ -1,5 +1,7 @@
 package rapid
 
+import "unicode"
+
 // L-PRUNE (C04, C01): a recording, pruned of its discarded groups, replays to the same values.
 
 
@@ -204,4 +206,97 @@ func pruneRepeat(progs [][]uint8, L int) {
 	rec2.prune()
 	vassert(compareData(rec2.data, rec.data) == 0, "C04: re-recording the pruned replay of a state-machine test case gives a different bitstream")
 	_ = d1
+}
+
+var alphaPruneMain = []uint8{opReturn, opDrawBool, opDrawFiltered, opErrorf, opFatalA, opPanicStr, opSkip, opCustom}
+var alphaPruneSub = []uint8{opReturn, opDrawBool, opErrorf, opFatalB, opPanicStr, opSkip}
+
+// H_C04_prune_program: a whole test case given by a symbolic program (draws, rejection-based
+// draws, a Custom generator whose function runs a sub-program that may itself draw, fail or
+// skip, failures of every kind) run through checkOnce on a recording stream: the pruned
+// recording replays to the same verdict, the same failure and the same draws. Covers failures
+// raised INSIDE a generator attempt (Custom function, Filter predicate), whose bits must survive
+// pruning.
+func H_C04_prune_program() {
+	k := 2
+	if thorough() {
+		k = 3
+	}
+	p := newVProg("p", k, 2, alphaPruneMain, alphaPruneSub)
+	run := func(s bitStream) (int, string, []uint64) {
+		err := checkOnce(newT(newVTB("P"), s, false, nil), p.prop)
+		inv := p.last()
+		switch {
+		case err == nil:
+			return 0, "", inv.topDraws
+		case err.isInvalidData():
+			return 1, "", inv.topDraws
+		}
+		// verdict and failure message; the traceback of a failure that is attributed after the fact
+		// (a non-fatal failure followed by an invalid-data end) names the place where the test case
+		// ended, which legitimately differs between the recording and its pruned replay
+		return 2, err.Error(), inv.topDraws
+	}
+	s1 := newBufBitStream(symWords("w", pruneL(8, 10)), true)
+	v1, m1, d1 := run(s1)
+	if v1 == 1 {
+		reach("invalid")
+		return
+	}
+	reach("valid")
+	if v1 == 2 {
+		reach("failed")
+	}
+	rec := s1.recordedBits
+	before := len(rec.data)
+	rec.prune()
+	if len(rec.data) < before {
+		reach("pruned-something")
+	}
+	s2 := newBufBitStream(append([]uint64(nil), rec.data...), true)
+	v2, m2, d2 := run(s2)
+	vassert(v2 == v1 && m2 == m1, "C04: replaying the pruned recording of a test case gives a different verdict or failure")
+	if v2 != v1 {
+		return
+	}
+	vassert(len(d1) == len(d2), "C04: replay of the pruned recording draws a different number of values")
+	for i := 0; i < len(d1) && i < len(d2); i++ {
+		vassert(d1[i] == d2[i], "C04: replay of the pruned recording draws different values")
+	}
+	rec2 := s2.recordedBits
+	rec2.prune()
+	vassert(compareData(rec2.data, rec.data) == 0, "C04: re-recording the pruned replay gives a different bitstream")
+}
+
+// H_C04_prune_nested: rejected attempts nested inside rejected attempts: a Filter whose element
+// is a bounded integer with its own rejection loop (IntRange(0,4), 3 bits: 5..7 are out of range).
+func H_C04_prune_nested() {
+	g := IntRange(0, 4).Filter(func(x int) bool { return x != 2 })
+	pruneReplay(pruneL(10, 13), func(t *T) []uint64 {
+		a := g.value(t)
+		b := t.s.drawBits(64)
+		return []uint64{uint64(a), b}
+	})
+}
+
+// H_C04_history_runeTable: what a generator draws does not depend on which generators were built
+// earlier in the process: RuneFrom over a range table that also contains surrogate code points,
+// built twice; both instances draw the same rune from equal bitstreams.
+func H_C04_history_runeTable() {
+	tab := &unicode.RangeTable{R16: []unicode.Range16{{Lo: 0xD7FC, Hi: 0xE003, Stride: 1}}}
+	// die word, bias word of the index draw (how many bits the index gets), index bits
+	bias := []uint64{0, 1 << 48, 1 << 50, 1 << 51, 3 << 50, 1 << 52, 7 << 50, 1<<53 - 1}[choose("bias", 8)]
+	bits := []uint64{1, 5, 9, 11, 2051, 2055}[choose("bits", 6)]
+	words := []uint64{0, bias, bits, 0, 0}
+	draw := func() (rune, bool) {
+		g := RuneFrom(nil, tab)
+		var r rune
+		p := catch(func() { r = g.value(newT(nil, newBufBitStream(append([]uint64(nil), words...), false), false, nil)) })
+		return r, p == nil
+	}
+	r1, ok1 := draw()
+	r2, ok2 := draw()
+	r3, ok3 := draw()
+	vassert(ok1 == ok2 && ok2 == ok3 && r1 == r2 && r2 == r3, "C04: the same generator expression draws different values from the same bitstream depending on how many generators were built before it")
+	reach("compared")
 }
